@@ -1172,7 +1172,11 @@ CJSON_PUBLIC(cJSON *) cJSON_ParseWithLengthOpts(const char *value, size_t buffer
     /* if we require null-terminated JSON without appended garbage, skip and then check for a null terminator */
     if (require_null_terminated)
     {
-        buffer_skip_whitespace(&buffer);
+        /* skip whitespace, but not the null terminator itself */
+        while ((buffer.offset < buffer.length) && (buffer_at_offset(&buffer)[0] != '\0') && (buffer_at_offset(&buffer)[0] <= 32))
+        {
+            buffer.offset++;
+        }
         if ((buffer.offset >= buffer.length) || buffer_at_offset(&buffer)[0] != '\0')
         {
             goto fail;
